@@ -72,7 +72,7 @@ class RdmWorld(World):
         name, d, kinds, uhf, frozen = rng.choice(MOLS)
         if not thorough and name in ("H4", "H4_cation", "H4_ring") and not uhf and rng.random() < 0.5:
             name, d, kinds, uhf, frozen = rng.choice(MOLS[:6])
-        return {"mol": name, "d": d, "kinds": kinds, "uhf": uhf, "frozen": frozen, "n_steps": rng.randint(5, 10) if not thorough else rng.randint(8, 18),
+        return {"mol": name, "d": d, "kinds": kinds, "uhf": uhf, "frozen": frozen, "n_steps": rng.randint(6, 12) if not thorough else rng.randint(8, 18),
                 "shots": rng.choice([None, None, 10 ** 4, 10 ** 5]), "mapping": rng.choice(["jw", "jw", "bk", "scbk", "jkmn"]),
                 "utd": rng.choice([False, True]), "ansatz": rng.choice(VQE_ANSATZ),
                 "faults": rng.random() < 0.8, "fault_rate": rng.choice([0.1, 0.2])}
@@ -103,9 +103,9 @@ class RdmWorld(World):
         if e.get("scribbled") and rng.random() < 0.8:
             # the caller has just overwritten the arrays it was handed: ask the same question again
             return {"k": "rdm", "i": i, "seed": rng.randrange(10 ** 9), "sum_spin": True, "mode": "same_again"}
-        w = [("rdm", 4.0), ("simulate", 1.0)]
+        w = [("rdm", 4.0), ("simulate", 0.7)]
         if e["last"] is not None:
-            w += [("pad", 2.0), ("scribble", 2.0)]
+            w += [("pad", 2.0), ("scribble", 3.5)]
         if e["kind"] == "vqe" and cfg["shots"] is not None and e["have_freqs"]:
             w += [("resample", 2.5)]
         x = rng.random() * sum(v for _, v in w)
